@@ -9,4 +9,4 @@ rsync -a --delete --exclude target --exclude .git /repo/ $W/repo-$s/
 (cd $W/repo-$s && d=/verif/seeded/$s; [ -d $d ] || d=/var/tmp/seed-stage/$s; patch -p1 -s < $d/patch.diff)
 cd /verif
 VERIF_WORK=$W/work-$s VERIF_REPO=$W/repo-$s VERIF_EVIDENCE_DIR=$W/ev ./check "$@" 2>&1 | grep -E -A4 "VIOLATION|UNDECIDED|BROKEN|discharged|KNOWN" | cut -c1-2400
-rm -rf $W/repo-$s
+rm -rf $W/repo-$s $W/work-$s
